@@ -86,6 +86,21 @@ fn main() {
                 std::process::exit(0)
             }
         }
+        Some("dump-tokens") => {
+            // development aid: flattened tokens of a source file, one per line
+            let rel = args.get(2).cloned().unwrap_or_else(|| usage());
+            match srcmodel::load(&repo, &rel) {
+                Ok(src) => {
+                    for t in srcmodel::tsx(&src.file).toks {
+                        println!("{}", t);
+                    }
+                }
+                Err(e) => {
+                    eprintln!("{}", e);
+                    std::process::exit(1)
+                }
+            }
+        }
         Some("grammar-stats") => {
             let text = std::fs::read_to_string(repo.join("parser/src/python.lalrpop")).unwrap();
             match grammar::parse_grammar(&text) {
